@@ -166,7 +166,9 @@ def genHistory (len : Nat) (period : Nat) (onlyValid : Bool) : Gen History := do
   for _ in [0:n0] do
     let explicit ← randBool
     -- explicit PIDs also in the range automatic assignment starts from (0x100..0x103), so that it has to step over several
-    let pid ← (if explicit then (do if (← chance 1 3) then randRange 0x100 0x103 else randRange 0x200 0x20f) else pure 0)
+    let pid ← (if explicit then (do
+      let c ← randBelow 4
+      if c = 0 then randRange 0x100 0x103 else if c = 1 then pick [0x20, 0xfff, 0x1001, 0x1100, 0x1234, 0x1abc, 0x1ffe] else randRange 0x200 0x20f) else pure 0)
     if explicit && pids.contains pid then continue
     let es ← genES pid (← chance 1 3)
     ops := ops ++ [.add es]
@@ -354,7 +356,10 @@ def runC17 (t : Tier) : Emit Unit := do
     for i in [0:40] do
       let k ← liftGen (randBelow 3)
       if k = 0 then ops := ops ++ [.add { elementaryPID := 0, streamType := 0x0f }, .tables]
-      else if k = 1 then ops := ops ++ [.add { elementaryPID := 0x300 + i, streamType := 0x0f }, .tables, .remove (0x300 + i), .tables]
+      else if k = 1 then
+        -- explicit PIDs from both halves of the 13-bit PID space
+        let pe := if i % 2 = 0 then 0x300 + i else 0x1f00 + i
+        ops := ops ++ [.add { elementaryPID := pe, streamType := 0x0f }, .tables, .remove pe, .tables]
       else ops := ops ++ [.setPCR 0x100, .tables, .tables]
     emit "C17" (muxCase { period := 40, ops := ops } true "version-wrap")
   runHistories "C17" t true (if t.quick then 10 else 100) 50 false
